@@ -128,7 +128,7 @@ def rule_r4_assert_eq(text, fired):
         ob = code.index('{', cp)
         cb = match_close(code, ob)
         blk = norm_ws(text[ob:cb + 1])
-        mm = re.match(r'\{ \(left_val, right_val\) => \{ if !\(\*left_val (==|!=) \*right_val\) \{ let kind = [^;]*; vpanic\(\); \} \} \}$', blk)
+        mm = re.match(r'\{ \(left_val, right_val\) => \{ if !\(\*left_val (==|!=) \*right_val\) \{ let kind = [^;]*; vpanic\(\) ?; \} \} \}$', blk)
         if not mm:
             raise Unsupported('match (&a,&b) block is not an assert_eq expansion: ' + blk[:120])
         text = splice(text, m.start(), cb + 1, 'if !((%s) %s (%s)) { vpanic(); }' % (a, mm.group(1), b))
@@ -148,7 +148,7 @@ def rule_r4p_debug(text, fired):
         ob = m.end() - 1
         cb = match_close(code, ob)
         inner = norm_ws(text[ob + 1:cb])
-        mm = re.match(r'if !\((.*)\) \{ (\{ )?vpanic\(\);? ?(\} ?)?\} ?;?$', inner)
+        mm = re.match(r'if !\((.*)\) \{ (\{ )?vpanic\(\) ?;? ?(\} ?)?\} ?;?$', inner)
         if not mm:
             # a genuine `if true {}`? leave it; Verus will see it as is
             pos = m.end()
